@@ -217,7 +217,7 @@ class Sched:
         except Frozen:
             raise
         except BaseException as e:  # noqa - classified below
-            outcome, error = type(e).__name__, str(e)[:200]
+            outcome, error = type(e).__name__, str(e).replace(self.root, "<root>")[:200]
         copied = p.copies > copies_before
         self.log("op.end", op=kind, index=index, outcome=outcome, error=error)
         p.results.append((kind, outcome))
